@@ -27,7 +27,15 @@ fn main() {
                 std::thread::sleep(std::time::Duration::from_secs(limit + 5));
                 std::process::exit(3);
             });
-            println!("{}", f(&args[3..]));
+            // `child <id> -` : the tokens come on stdin (one line), for cases too large for an argument list
+            if args.len() == 4 && args[3] == "-" {
+                let mut line = String::new();
+                std::io::Read::read_to_string(&mut std::io::stdin(), &mut line).ok();
+                let toks: Vec<String> = line.split_whitespace().map(|s| s.to_string()).collect();
+                println!("{}", f(&toks));
+            } else {
+                println!("{}", f(&args[3..]));
+            }
         }
         "run" => {
             if args.len() < 3 { usage(); }
